@@ -372,6 +372,33 @@ def search_semantics(facts, res, fn, searches, idx, grp):
                           "the mapper skips to another group under `%s`; for the group interval %s and the found source index %d this is %s, whereas the interaction lies %s the group" % (facts.ntext(cond)[:80], wrong[0], wrong[1], wrong[2], "inside" if wrong[0][0] <= wrong[1] <= wrong[0][1] else "outside"))
 
 
+def decomposition(facts, res):
+    """C01.8 (see rules/decomp.py)"""
+    import decomp
+    R = "C01.8.level-decomposition"
+    # the level from which the executors run transfers: the default of the constructor parameter that feeds the upper working level
+    us = set()
+    for cls in ("TbfAlgorithm", "TbfOpenmpAlgorithm"):
+        for m in facts.methods_of(cls):
+            if m.get("kind") == "CXXConstructor" or m["name"].startswith(cls):
+                for p in m["params"]:
+                    if p.get("c") and ("long" in p.get("t", "") or "int" in p.get("t", "")):
+                        for y in walk(p["c"][0]):
+                            if y.get("k") == "DeclRefExpr":
+                                g = [g_ for g_ in facts.globals if g_["name"] == y.get("name")]
+                                if g and g[0].get("c"):
+                                    lit = [z for z in walk(g[0]["c"][0]) if z.get("k") == "IntegerLiteral"]
+                                    if len(lit) == 1:
+                                        us.add(int(lit[0]["val"]))
+                            if y.get("k") == "IntegerLiteral":
+                                us.add(int(y["val"]))
+    if len(us) != 1:
+        raise AnalysisBroken("default upper working level of the single-tree executors not identified (%s)" % sorted(us))
+    U = next(iter(us))
+    n = decomp.check(facts, res, R, "TbfMortonSpaceIndex", U)
+    res.floor(R, n, 1000, "ordered pairs of leaf cells")
+
+
 def routing(facts, res, classes):
     R = "C01.5.list-routing"
     n = 0
@@ -427,6 +454,8 @@ def run(res, tier):
     sorted_search(facts, res)
     res.rule("C01.7 mapper exits: the path condition of every return taken before the list is walked implies that no listed source index lies inside any group's index interval (implication decided over all models with indices 0..4, <=2 interactions, <=2 sorted disjoint groups); the single-tree overloads forward (list, groups, working group, same groups, callback) unconditionally")
     mapper_exits(facts, res)
+    res.rule("C01.8 level decomposition: with the window clamps, too-close threshold, empty-below level, self exclusion and upper-half filter read from the per-cell list builders and the default upper working level of the executors, every ordered pair of different leaf cells is covered exactly once (near field, or a transfer at exactly one level) in the model built from those constants: all pairs, Dim 1 heights 2..7 and Dim 2 heights 2..5; adjacent pairs are listed by exactly one side of the half list")
+    decomposition(facts, res)
     try:
         n5 = routing(facts, res, SINGLE_TREE["core"])
     except AnalysisBroken:
